@@ -739,7 +739,7 @@ class Controller(object):
         # estimate actual objective value
         obj = sumsq(np.mean(rvec_list, axis=0))
         # pred_reduction = - calculate_model_value(gopt, H, d)
-        pred_reduction = - model_value(gopt, H, d)
+        pred_reduction = 0.0 - model_value(gopt, H, d)  # subtraction, not negation: a zero model change must give +0.0, not -0.0
         if self.h is not None:
             # QUESTION: x+d here correct? rvec_list takes mean value
             obj += self.h(remove_scaling(x+d, self.scaling_changes), *self.argsh) 
